@@ -22,7 +22,8 @@ RULE = ('perm: random profile, outcome under 3 random permutations of the dictio
         'thorough tier: exhaustive-small-simple = EVERY simple-vote profile over <= 3 candidates with totals 0..3, every n, every permutation and the '
         'order-reversing renaming, for all simple-vote evaluators. non-trivial = the outcome contains a tie or a refusal, or the profile has > 3 candidates; distinct by case hash')
 PARTIAL = ['order / renaming / hash-seed independence of the evaluators without a Gallina model here '
-           '(STAR, allocated score, Bucklin family, Tideman / Benham ...) are decided per explored case; '
+           '(STAR, Bucklin family, Tideman / Benham ...) are decided per explored case; allocated score: no error outcome under any iteration order of the tied sets '
+           '(C10_allocated_score_crash_free), the spending order of the quotas of jointly seated level leaders is refuted (C10_allocated_score_tie_order_refuted, known finding C10-allocated-score), the rest per case; '
            'proved: order independence of get_n_best, the additive converters, highest averages, the quota family, the STV count and the Condorcet family '
            '(Schulze, the Smith set and the Schwartz set for non-negative counts, ranked pairs for pairwise distinct sort keys; ranked pairs with equal strengths refuted; the prefix routine SchwartzSet ran before the repair fixes/C06-schwartz-set refuted - fixed finding C10-schwartz-order); '
            'renaming equivariance (exact equality, f injective) of the Condorcet family, QuotaDistributor / LargestRemainder / QuotaSelector, the STV count, SPAV, the score '
